@@ -100,6 +100,13 @@ theorem addImports_pres (st : Python.St) (tp : Str) : Pres st (addImports st tp)
 
 theorem addCustom_pres (st : Python.St) (t : Str) : Pres st (addCustom st t) := fun h => ⟨h.imports, h.typeVars⟩
 
+/-- the `datetime` import added before the header is written (`fix:` commit 062e77e) -/
+theorem addDatetimeImport_pres (st : Python.St) : Pres st (addDatetimeImport st) := by
+  unfold addDatetimeImport
+  split
+  · exact addImport_pres _ _ _ (by decide) (by decide)
+  · exact Pres.refl st
+
 /-! ## types -/
 
 theorem special_ok {cfg : Cfg} (H : CfgOk cfg) (t : RustType) (st : Python.St) (k : Python.St → Outcome (Str × Python.St))
@@ -942,11 +949,12 @@ theorem generate_ok (E : Ext) (hU : E.U.AsciiCorrect) (hS : SnakeOk E) {cfg : Cf
     (hv : ∀ v, cfg.versionHeader = some v → Dotted v) (d : ParsedData)
     (hitems : ∀ it ∈ TsV.C12L.itemsOf d, ItemOk it) (st0 : Python.St) (h0 : StOk st0) (text : Str) (st : Python.St)
     (h : generate E cfg d st0 = .ok (text, st)) : NBp text ∧ StOk st := by
-  obtain ⟨items, blocks, ho, hth, rfl⟩ := TsV.C03E.Py.generate_blocks E cfg d st0 text st h
-  obtain ⟨hb, hst⟩ := Threaded.inv (P := StOk) (Q := NBp) hth h0 (fun it hit s b s' hs hw =>
+  obtain ⟨items, blocks, st1, ho, hth, rfl, rfl⟩ := TsV.C03E.Py.generate_blocks E cfg d st0 text _ h
+  obtain ⟨hb, hst1⟩ := Threaded.inv (P := StOk) (Q := NBp) hth h0 (fun it hit s b s' hs hw =>
     let r := writeItem_ok E hU hS H it (hitems it (mem_of_generateOrder ho hit)) s b s' hw
     ⟨r.1, r.2 hs⟩)
-  exact ⟨(((beginFile_nbp cfg hv).append (writeAllImports_nbp st hst)).append (writeCustomFns_nbp st)).append
+  have hst := addDatetimeImport_pres st1 hst1
+  exact ⟨(((beginFile_nbp cfg hv).append (writeAllImports_nbp _ hst)).append (writeCustomFns_nbp _)).append
     (NBp.flatten _ hb), hst⟩
 
 def JobsOk (jobs : List (Str × ParsedData × Option Pipeline.ScopedCrateTypes)) : Prop :=
